@@ -56,7 +56,18 @@ ResShape(x) ==
 \* reference tokens of every length around the one-byte / two-byte TLV length switch of the reference container and around the
 \* short / extended APDU length switch of the request
 LongTokCases == SetSeq({<<<<2, 5, 0, 0>>, <<1>>, 978, 231, Ascii(n, 11), 1>> : n \in (100..140) \cup (218..232)})
+\* what the terminal reports in the status information of the reservation has no say in what is released: every boundary value of
+\* every field of the status information (its TLV container included), each with the receipt number the release must name
+StatusVals == Values("StatusInformation")
+C08StatusCases == [k \in 1..Len(StatusVals) |-> <<"status", k>>]
+C08StatusScenario(k) ==
+  LET v == [StatusVals[k] EXCEPT !.receipt_no = <<D(231)>>] IN
+  [config |-> BaseCfg, term |-> [next_receipt |-> 231],
+   calls |-> << [op |-> "begin", token |-> <<97>>, amount |-> <<>>], [op |-> "commit", token |-> <<97>>, amount |-> <<8, 3, 3>>] >>,
+   plan |-> [exchanges |-> << [script |-> << EncPacket("StatusInformation", v), EncPacket("CompletionData", MinVal("CompletionData")) >>],
+                              [o |-> "ok", status |-> [amount |-> <<1>>]] >>]]
 C08Scenario(x) ==
+  IF Len(x) = 2 THEN C08StatusScenario(x[2]) ELSE
   LET st == SetSeq(Statuses)[x[6]] IN
   [config |-> [BaseCfg EXCEPT !.pre = x[1], !.currency = x[3]],
    term |-> [next_receipt |-> x[4]],
@@ -105,8 +116,10 @@ StatusOk(o, e) == \/ (Ops[o].name \in {"begin", "commit", "cancel"} /\ ~NoInter(
 Codes == IF Thorough THEN 0..255 ELSE {0, 1, 100, 108, 119, 131, 160, 180, 181, 183, 184, 252, 255} \cup {c \in 0..255 : c % 16 = 5}
 \* i = 0..2 intermediate statuses in front of the abort; i = 3: a status information in front of it
 \* i = 4 / 5: the abort names a receipt number (06 1E 04 cc 87 rr rr): 8 / the "none" marker FFFF
-C20Cases == SetSeq({<<o, e, code, i>> \in (1..Len(Ops)) \X (1..6) \X Codes \X (0..5) :
-                      e <= Ops[o].n /\ (i = 0 \/ (i \in {1, 2} /\ code \in {108, 160, 183, 252} /\ ~NoInter(o, e)) \/ (i \in {3, 4, 5} /\ StatusOk(o, e)))})
+\* the plain abort (i = 0) runs over all 256 codes in every exchange of every operation; the other reply shapes over Codes
+C20Cases == SetSeq({<<o, e, code, i>> \in (1..Len(Ops)) \X (1..6) \X (0..255) \X (0..5) :
+                      e <= Ops[o].n /\ (i = 0 \/ (i \in {1, 2} /\ code \in {108, 160, 183, 252} /\ ~NoInter(o, e))
+                                              \/ (i \in {3, 4, 5} /\ code \in Codes /\ StatusOk(o, e)))})
 \* i = 6 / 7: the connection is closed at frame 0 / 1 of the exchange and the terminal aborts the re-sent request with the code
 RetryCodes == {5, 108, 160, 180, 183, 252}
 C20Retry == SetSeq({<<o, e, code, i>> \in (1..Len(Ops)) \X (1..6) \X RetryCodes \X {6, 7} : e <= Ops[o].n})
@@ -190,7 +203,7 @@ FaultScenario(x) ==
    plan |-> [exchanges |-> pl, handshake |-> IF x.k = "hs" THEN <<x.hs>> ELSE <<>>,
              default |-> OkPlan]]
 
-Cases == CASE Mode = "C08" -> C08Cases \o LongTokCases [] Mode = "C18" -> C18Cases [] Mode = "C20" -> C20Cases \o C20Retry [] Mode \in {"C09", "C10"} -> FaultCases
+Cases == CASE Mode = "C08" -> C08Cases \o LongTokCases \o C08StatusCases [] Mode = "C18" -> C18Cases [] Mode = "C20" -> C20Cases \o C20Retry [] Mode \in {"C09", "C10"} -> FaultCases
 AllCases == SubSeq(Cases, 1, Len(Cases))
 ScenarioOf(x) == CASE Mode = "C08" -> C08Scenario(x) [] Mode = "C18" -> C18Scenario(x) [] Mode = "C20" -> C20Scenario(x)
                    [] Mode \in {"C09", "C10"} -> FaultScenario(x)
